@@ -1113,6 +1113,14 @@ func (s *Sym) evalCall(v *ssa.Call) *Term {
 			}
 			return catTerms(base, T(w, "", s.Of(cc.Args[2])))
 		}
+	case "golang.org/x/crypto/hkdf.Expand":
+		// hkdf.New(h, secret, salt, info) is defined as Expand(h, Extract(h, secret, salt), info)
+		if len(cc.Args) == 3 {
+			prk := s.Of(cc.Args[1])
+			if prk.Op == "call" && prk.Name == "golang.org/x/crypto/hkdf.Extract" && len(prk.Args) == 3 && prk.Args[0].String() == s.Of(cc.Args[0]).String() {
+				return &Term{Op: "call", Name: "golang.org/x/crypto/hkdf.New", Args: []*Term{prk.Args[0], prk.Args[1], prk.Args[2], s.Of(cc.Args[2])}, Src: v, Site: v}
+			}
+		}
 	case "strings.Join":
 		return T("join", "", s.Of(cc.Args[0]), s.Of(cc.Args[1]))
 	case "github.com/cloudflare/pat-go/quicwire.AppendVarint", "quicwire.AppendVarint":
